@@ -58,7 +58,7 @@ var verifC08B58Strings = []string{
 	verifC08SigZero, // zero signature
 	"",              // empty
 	"0OIl",          // characters outside the alphabet
-	"éé",  // high-bit bytes
+	"éé",            // high-bit bytes
 	"1",             // one zero byte
 }
 
